@@ -303,6 +303,44 @@ theorem apply_error_class {cfg : Cfg} (hv : cfg.validatesValues = true) (hc : cf
   applyWithCondition_error_class hv hparse hcond hpaths
     (fun _ _ _ hf => by rw [hc] at hf; cases hf) hm hsize hns h
 
+/-- COMPLETE AGREEMENT WITH THE SPEC, `_partial`: success and failure alike, for every patch in
+    which no op runs on a document an earlier op of the SAME patch spliced a container into
+    (`NoSplice`).  What is missing relative to the full statement is exactly the patches violating
+    `NoSplice` — the recorded finding C13-spliced-value-opaque, closed witness
+    `witness_spliced_opaque` (`SET x ← {"a":1}; SET x.a ← 2`: the Spec applies both, the code
+    answers TYPE_MISMATCH).  The success half needs no such hypothesis (`apply_refines_spec`). -/
+theorem apply_agrees_spec_nosplice_partial {cfg : Cfg} (hv : cfg.validatesValues = true) (hc : cfg.rmvalCanon = true)
+    {body : Bytes} {ops : List Op} {cond : Option Condition} {t : Node}
+    (hparse : parse body = .ok t)
+    (hcond : (match cond with | none => Except.ok () | some cd => evalCond cfg t cd) = .ok ())
+    (hpaths : ∀ op ∈ ops, op.path.length < 2 ^ 32) (hm : ∀ op ∈ ops, MergeAccepted op)
+    (hsize : maxCh t + totalGrowth cfg ops < 2 ^ 32) (hns : NoSplice cfg t ops) :
+    match applyWithCondition cfg body ops cond with
+    | .ok out => ∃ d, Spec.refOps t ops = .ok d ∧ parse out = .ok d
+    | .error e => Spec.refOps t ops = .error e := by
+  cases ha : applyWithCondition cfg body ops cond with
+  | ok out => exact apply_refines_spec hv hc hparse hpaths hsize ha
+  | error e =>
+    simp only
+    have hw := parse_wf hparse
+    have hops : applyOps cfg t ops = .error e := by
+      unfold applyWithCondition at ha
+      rw [hparse] at ha; simp only at ha
+      cases cond with
+      | none =>
+        simp only at ha
+        cases h : applyOps cfg t ops with
+        | ok t' => rw [h] at ha; cases ha
+        | error e' => rw [h] at ha; injection ha with ha; rw [ha]
+      | some cd =>
+        simp only at ha hcond
+        rw [hcond] at ha; simp only at ha
+        cases h : applyOps cfg t ops with
+        | ok t' => rw [h] at ha; cases ha
+        | error e' => rw [h] at ha; injection ha with ha; rw [ha]
+    exact applyOps_error_class_conv hv hpaths (fun _ _ _ hf => by rw [hc] at hf; cases hf) hm hsize
+      (wf_WfB t hw.1) hw.2 hns hops
+
 /-- … and one op on a parsed document: complete agreement, result and error class alike -/
 theorem op_agrees {cfg : Cfg} (hv : cfg.validatesValues = true) (hc : cfg.rmvalCanon = true)
     {body : Bytes} {t : Node} {op : Op} (hparse : parse body = .ok t) (hsize : maxCh t < 2 ^ 32)
@@ -955,7 +993,7 @@ def hasUnknown (f : Facts) : Bool :=
   f.stCond.isNone || f.stType.isNone || f.stPath.isNone || f.stOp.isNone || f.stMsgpack.isNone ||
   f.stNonstr.isNone || f.seedDefault.isNone ||
   f.opOrder.isNone || f.condOrder.isNone || f.protoOps.isNone || f.protoConds.isNone ||
-  f.wireConv == .unknown || !(wireOf f).sized || f.seedMapCheck == .unknown
+  f.wireConv == .unknown || !(wireOf f).clean || f.seedMapCheck == .unknown
 
 def allGood (f : Facts) : Bool :=
   f.validatesValues == .yes && f.nanCompare == .neverEqual && f.removeValCompare == .canonical &&
@@ -990,23 +1028,27 @@ theorem classify_sound (f : Facts) : (classify f).Sound (Full f) (HoldsExcept (c
       have hv : (cfgOf f).validatesValues = true := by simp [cfgOf, h1, Tri.isYes]
       have hc : (cfgOf f).rmvalCanon = true := by simp [cfgOf, h3]
       have hn : (cfgOf f).nan = .neverEqual := by simp [cfgOf, h2]
+      have hws : (wireOf f).clean = true := by
+        cases hsz : (wireOf f).clean with
+        | true => rfl
+        | false => exact absurd (by simp [hasUnknown, hsz]) hu
+      exact ⟨holds_of_good hv hn hc, ⟨h4, fun tr ops cond create seed m =>
+        patchFields_refines (pfOf f) hv hc h4 tr ops cond create seed m⟩, WireCfg.holds_of_agrees hws h5,
+        fun _ _ _ _ h => pfGate_created_map hsm h⟩
+    · rename_i hb
+      refine ⟨fun hfull => ?_, holds_except _⟩
+      obtain ⟨hH, hP, hW, hS⟩ := hfull
       have hwc : (wireOf f).conv ≠ .unknown := by
         intro hx
         apply hu
         have : f.wireConv = .unknown := hx
         simp [hasUnknown, this]
-      have hws : (wireOf f).sized = true := by
-        cases hsz : (wireOf f).sized with
+      have hws : (wireOf f).clean = true := by
+        cases hsz : (wireOf f).clean with
         | true => rfl
         | false => exact absurd (by simp [hasUnknown, hsz]) hu
-      exact ⟨holds_of_good hv hn hc, ⟨h4, fun tr ops cond create seed m =>
-        patchFields_refines (pfOf f) hv hc h4 tr ops cond create seed m⟩, WireCfg.holds_of_agrees hwc hws h5,
-        fun _ _ _ _ h => pfGate_created_map hsm h⟩
-    · rename_i hb
-      refine ⟨fun hfull => ?_, holds_except _⟩
-      obtain ⟨hH, hP, hW, hS⟩ := hfull
       cases hwa : (wireOf f).agrees with
-      | false => exact WireCfg.not_holds_of_disagree hwa hW
+      | false => exact WireCfg.not_holds_of_disagree hwc hws hwa hW
       | true =>
         obtain ⟨vv, nc, fx, dk, rv, m0, m1, s1, s2, s3, s4, s5, s6, sd, oo, co, po, pc, wc, sm⟩ := f
         cases sm with
